@@ -132,7 +132,7 @@ Section Honest.
   Lemma dd_honest j k : (j < xi)%nat -> (k < rv_w lb rho)%nat ->
     eqmod q (dd q beta vx (cell M) j k) (alpha q v0 j k + b2z (beta j) * ext_in lb a eta0 k).
   Proof.
-    intros Lj Lk. unfold dd, M, alpha. rewrite cell_build by assumption.
+    intros Lj Lk. rewrite dd_spec. unfold M, alpha. rewrite cell_build by assumption.
     unfold atilde_cell. rewrite (reduce_scalar_bytes q q_range).
     rewrite (ot_ok j k Lj Lk). unfold alpha.
     destruct (beta j); cbn [b2z]; zmod.
